@@ -67,6 +67,15 @@ def corrections(darsia, rng, shape, workdir):
     A = darsia.AffineTransformation(2)
     A.set_dtype(darsia.make_voxel_center([[0, 0]]), darsia.make_voxel_center([[0, 0]]))
     out.append(("transformation-identity", darsia.TransformationCorrection(im.coordinatesystem, im.coordinatesystem, A), True, False))
+    # a correction that DECLARES metadata updates (dimensions and origin of the destination frame) and changes the array shape
+    src = darsia.Image(np.zeros((H, W)), space_dim=2, dimensions=[0.5 * H, 0.25 * W], origin=[1.0, 2.0], scalar=True)
+    dst = darsia.Image(np.zeros((H + 1, W + 2)), space_dim=2, dimensions=[0.5 * H + 0.5, 0.25 * W + 0.5], origin=[0.5, 3.0], scalar=True)
+    ps = darsia.make_voxel([[0, 0], [H, 0], [H, W], [0, W]])
+    pd = darsia.make_voxel([[0, 0], [H + 1, 0], [H + 1, W + 2], [0, W + 2]])
+    with warnings.catch_warnings(), contextlib.redirect_stdout(io.StringIO()):
+        warnings.simplefilter("ignore")
+        gp = darsia.GeneralizedPerspectiveCorrection(src.coordinatesystem, dst.coordinatesystem, ps, pd, {"tol": 1e-3, "maxiter": 20})
+    out.append(("perspective-reframe", gp, False, False))
     return out
 
 
